@@ -1,6 +1,7 @@
 (* C12 — Logical functions are truth-functional; type predicates classify values.
-   Property theorems only; proofs are in Proofs/LogicProofs.v and Proofs/ValueProofs.v. *)
-From HX Require Import Model.Value Model.Logic Proofs.ValueProofs Proofs.LogicProofs.
+   Property theorems only; proofs are in Proofs/LogicProofs.v, Proofs/LogicAlgebra.v and Proofs/ValueProofs.v. *)
+From HX Require Import Model.Value Model.Logic Proofs.ValueProofs Proofs.LogicProofs Proofs.LogicAlgebra.
+From Coq Require Import Permutation.
 Open Scope Z_scope.
 
 (* truth values *)
@@ -105,6 +106,24 @@ Example C12_examples :
   no_errors (flatten_args [VInt 1; VList [VBool true]]).
 Proof. vm_compute. repeat split; try reflexivity. repeat constructor. Qed.
 
+(* Boolean algebra over error-free items (Proofs/LogicAlgebra.v): order irrelevant, De Morgan, XOR of two, NOT of NOT *)
+Theorem C12_order_free : forall a b, no_errors (flatten_args a) -> Permutation (flatten_args a) (flatten_args b) ->
+  fn_AND a = fn_AND b /\ fn_OR a = fn_OR b /\ fn_XOR a = fn_XOR b.
+Proof. exact AND_OR_XOR_order_free. Qed.
+Theorem C12_de_morgan : forall args, no_errors (flatten_args args) ->
+  (exists r, fn_AND args = Ret r /\ fn_NOT [r] = fn_OR (map not_item (flatten_args args))) /\
+  (exists r, fn_OR args = Ret r /\ fn_NOT [r] = fn_AND (map not_item (flatten_args args))).
+Proof. exact de_morgan. Qed.
+Theorem C12_not_item_is_NOT : forall v, is_err v = false -> fn_NOT [v] = Ret (not_item v).
+Proof. exact NOT_truth. Qed.
+Theorem C12_XOR_two : forall a b, is_leaf a -> is_leaf b -> is_err a = false -> is_err b = false ->
+  fn_XOR [a; b] = Ret (VBool (xorb (truthy a) (truthy b))).
+Proof. exact XOR_two. Qed.
+Theorem C12_NOT_NOT : forall v, is_err v = false -> exists r, fn_NOT [v] = Ret r /\ fn_NOT [r] = Ret (VBool (truthy v)).
+Proof. exact NOT_NOT. Qed.
+
+Print Assumptions C12_order_free.
+Print Assumptions C12_de_morgan.
 Print Assumptions C12_AND.
 Print Assumptions C12_OR.
 Print Assumptions C12_XOR.
